@@ -432,7 +432,11 @@ def _regular_file_everywhere(ctx):
         ctx.ob("R9", f"{EX}:is_executable_in_posix", f"`{short(r_, 60)}`: every answer that can be 'yes' is os.access({pp}, os.X_OK) - the test execvp itself applies for this process", ok, key="is_executable_in_posix|answer-not-access", where=loc(r_))
     # listings: what is yielded / collected passed the predicate
     cm = ctx.repo.module(CC)
-    for q in ("_yield_accessible_unix_file_names",):
+    # the listing helpers, by role: generators of this module that walk os.scandir / os.listdir of a directory and yield names
+    listers = [q_ for q_, f_ in cm.functions() if "." not in q_ and any(isinstance(y, (ast.Yield, ast.YieldFrom)) for y in walk_local(f_)) and any((call_name(c) or "") in ("os.scandir", "os.listdir", "scandir") for c in calls_in(f_)) and not any("windows" in q_.lower() for _ in [0])]
+    if not listers:
+        raise AnchorMissing(f"{CC}: no generator that lists a $PATH directory (os.scandir / os.listdir + yield)")
+    for q in listers:
         fn = cm.func(q)
         cfg = CFG(fn)
         ys = [nd for nd in cfg.nodes if nd.kind == "stmt" and any(isinstance(y, (ast.Yield, ast.YieldFrom)) for y in ast.walk(nd.ast))]
